@@ -47,4 +47,47 @@ def commit_raw_checks_before_publish(repo=None):
     return rep
 
 
-CHECKS = {"commit_raw_checks_before_publish": commit_raw_checks_before_publish}
+def claim_tree_values_checks_before_claim(repo=None):
+    """In HashColumn::claim_tree_values the representability check of the root (packed_child_count) and of every new
+    node (prepare_children -> prepare_node) must precede the first claim_entries call."""
+    repo = repo or scratch.REPO
+    rep = {"unit": "syntactic:claim_tree_values_checks_before_claim", "status": "undecided", "reason": "", "failed": [],
+           "named": ["U11.claim_tree_values.representability_checked_before_any_slot_is_claimed"], "obligations": 1, "verified": 0, "errors": 0,
+           "cmd": "text dominance check on HashColumn::claim_tree_values / prepare_node in src/column.rs", "wall_s": 0.0,
+           "functions": ["column::HashColumn::claim_tree_values", "column::HashColumn::prepare_node"],
+           "trusted_scan": {"syntactic-check (not a proof)": 1}, "smt_s": 0}
+    try:
+        src = open(os.path.join(repo, "src/column.rs")).read()
+        start, fnpos, body_open, end = extract.find_fn(src, "claim_tree_values", impl="HashColumn")
+        s2, f2, b2, e2 = extract.find_fn(src, "prepare_node", impl="HashColumn")
+    except (extract.LostAnchor, OSError) as e:
+        rep["reason"] = "function not found: %s" % e
+        return rep
+    body = re.sub(r"//[^\n]*", "", src[body_open:end])
+    pn = re.sub(r"//[^\n]*", "", src[b2:e2])
+    claim = re.search(r"\.claim_entries\s*\(", body)
+    if not claim:
+        rep["reason"] = "no claim_entries call in claim_tree_values (code restructured)"
+        return rep
+    why = []
+    root = re.search(r"packed_child_count\s*\([^)]*children\.len\(\)\s*\)\s*\?", body)
+    prep = re.search(r"\.prepare_children\s*\(", body)
+    if not root or root.start() > claim.start():
+        why.append("the root's child count is not checked before the first claim_entries")
+    if not prep or prep.start() > claim.start():
+        why.append("new nodes are not visited (prepare_children) before the first claim_entries")
+    if not re.search(r"packed_child_count\s*\([^)]*children\.len\(\)\s*\)\s*\?", pn):
+        why.append("prepare_node does not check the child count of a new node")
+    if not why:
+        rep["status"] = "verified"
+        rep["verified"] = 1
+    else:
+        rep["status"] = "failed"
+        rep["errors"] = 1
+        rep["failed"].append({"obligation": rep["named"][0], "clause": "; ".join(why), "function": "HashColumn::claim_tree_values",
+                              "diag": "syntactic dominance check failed: " + "; ".join(why), "text": src[start:end][:6000]})
+    return rep
+
+
+CHECKS = {"commit_raw_checks_before_publish": commit_raw_checks_before_publish,
+          "claim_tree_values_checks_before_claim": claim_tree_values_checks_before_claim}
